@@ -316,7 +316,244 @@ Proof.
       intros H; inversion H; subst; left; exact HO.
 Qed.
 
-Lemma parse_dec_alt : forall s, parse_dec s =
+(* json_number_ok and parse_dec_body, cut into stages (same source text as
+   Num/Dec.v, so the stage equations hold by conversion) *)
+Definition strip_minus (s : bytes) : bytes := match s with 45 :: r => r | _ => s end.
+Definition jn_int (s1 : bytes) : option bytes :=
+  match s1 with
+  | 48 :: r => Some r
+  | b :: r => if (49 <=? b) && (b <=? 57) then let '(_, _, r') := take_digits r 0 0 in Some r' else None
+  | [] => None
+  end.
+Definition jn_frac (r1 : bytes) : option bytes :=
+  match r1 with
+  | 46 :: r => let '(_, n, r') := take_digits r 0 0 in if n =? 0 then None else Some r'
+  | _ => Some r1
+  end.
+Definition jn_exp (r2 : bytes) : bool :=
+  match r2 with
+  | [] => true
+  | b :: r =>
+    if (b =? 101) || (b =? 69) then
+      let r' := match r with 45 :: t => t | 43 :: t => t | _ => r end in
+      let '(_, n, r'') := take_digits r' 0 0 in
+      negb (n =? 0) && match r'' with [] => true | _ => false end
+    else false
+  end.
+Definition pd_frac (ip ni : Z) (r1 : bytes) : Z * Z * Z * bytes :=
+  match r1 with
+  | 46 :: r => let '(fp, nfr, r') := take_digits r ip 0 in (fp, nfr, ni + nfr, r')
+  | _ => (ip, 0, ni, r1)
+  end.
+
+Lemma json_number_ok_stages : forall s, json_number_ok s =
+  match jn_int (strip_minus s) with
+  | None => false
+  | Some r1 => match jn_frac r1 with None => false | Some r2 => jn_exp r2 end
+  end.
+Proof. reflexivity. Qed.
+
+Lemma strip_minus_alt : forall s, strip_minus s =
+  match s with [] => [] | b :: r => if b =? 45 then r else s end.
+Proof.
+  intros s. destruct s as [|[|p|p] r]; try reflexivity.
+  do 6 (destruct p as [p|p|]; try reflexivity).
+Qed.
+
+Lemma jn_int_alt : forall s1, jn_int s1 =
+  match s1 with
+  | [] => None
+  | b :: r =>
+    if b =? 48 then Some r
+    else if (49 <=? b) && (b <=? 57) then let '(_, _, r') := take_digits r 0 0 in Some r' else None
+  end.
+Proof.
+  intros s. destruct s as [|[|p|p] r]; try reflexivity.
+  do 6 (destruct p as [p|p|]; try reflexivity).
+Qed.
+
+Lemma jn_frac_alt : forall r1, jn_frac r1 =
+  match r1 with
+  | [] => Some r1
+  | b :: r =>
+    if b =? 46 then let '(_, n, r') := take_digits r 0 0 in if n =? 0 then None else Some r'
+    else Some r1
+  end.
+Proof.
+  intros s. destruct s as [|[|p|p] r]; try reflexivity.
+  do 6 (destruct p as [p|p|]; try reflexivity).
+Qed.
+
+Lemma pd_frac_alt : forall ip ni r1, pd_frac ip ni r1 =
+  match r1 with
+  | [] => (ip, 0, ni, r1)
+  | b :: r =>
+    if b =? 46 then let '(fp, nfr, r') := take_digits r ip 0 in (fp, nfr, ni + nfr, r')
+    else (ip, 0, ni, r1)
+  end.
+Proof.
+  intros ip ni s. destruct s as [|[|p|p] r]; try reflexivity.
+  do 6 (destruct p as [p|p|]; try reflexivity).
+Qed.
+
+(* what take_digits leaves behind *)
+Fixpoint drest (s : bytes) : bytes :=
+  match s with
+  | b :: r => if is_digit b then drest r else s
+  | [] => []
+  end.
+
+Lemma forallb_drest : forall (P : Z -> bool) s, forallb P s = true -> forallb P (drest s) = true.
+Proof.
+  intros P s. induction s as [|b r IH]; [auto|]. intros H. cbn [drest].
+  destruct (is_digit b); [|exact H]. apply IH. simpl in H. apply andb_true_iff in H as [_ H]. exact H.
+Qed.
+
+Lemma take_digits_bound : forall s acc n k a m r,
+  0 <= k -> 0 <= acc < 10 ^ k -> take_digits s acc n = (a, m, r) ->
+  0 <= a < 10 ^ (k + (m - n)) /\ n <= m /\
+  (m - n) + Z.of_nat (length r) = Z.of_nat (length s) /\ r = drest s.
+Proof.
+  induction s as [|b s IH]; intros acc n k a m r Hk Hacc; simpl take_digits.
+  - intros H; inversion H; subst. replace (k + (m - m)) with k by lia.
+    repeat split; try lia; reflexivity.
+  - cbn [drest]. destruct (is_digit b) eqn:D.
+    + intros H.
+      assert (Hacc' : 0 <= acc * 10 + (b - 48) < 10 ^ (k + 1)).
+      { unfold is_digit in D. apply andb_true_iff in D as [D1 D2].
+        apply Z.leb_le in D1. apply Z.leb_le in D2.
+        rewrite Z.pow_add_r by lia. change (10 ^ 1) with 10. lia. }
+      destruct (IH _ _ (k + 1) _ _ _ ltac:(lia) Hacc' H) as (B & C & L & R).
+      replace (k + 1 + (m - (n + 1))) with (k + (m - n)) in B by lia.
+      repeat split; try lia; try exact R.
+      change (length (b :: s)) with (S (length s)). rewrite Nat2Z.inj_succ. lia.
+    + intros H; inversion H; subst. replace (k + (m - m)) with k by lia.
+      repeat split; try lia; reflexivity.
+Qed.
+
+(* ---- '_' digit separators (accepted by the package, never RFC 8259) ---- *)
+Definition not_us (b : Z) : bool := negb (b =? 95).
+
+Lemma strip_us_alt : forall prev s, strip_us prev s =
+  match s with
+  | [] => Some []
+  | b :: r =>
+    if b =? 95 then (if prev then match r with [] => None | _ => strip_us false r end else None)
+    else match strip_us (is_digit b) r with Some r' => Some (b :: r') | None => None end
+  end.
+Proof.
+  intros prev s. destruct s as [|[|p|p] r]; try reflexivity.
+  do 7 (destruct p as [p|p|]; try reflexivity).
+Qed.
+
+Lemma strip_us_id : forall s prev, forallb (fun b => negb (b =? 95)) s = true -> strip_us prev s = Some s.
+Proof.
+  induction s as [|b r IH]; intros prev H; [reflexivity|].
+  rewrite strip_us_alt. cbn [forallb] in H. apply andb_true_iff in H as [Hb Hr].
+  destruct (b =? 95); [discriminate Hb|]. rewrite (IH _ Hr). reflexivity.
+Qed.
+
+(* without a digit in the result there was no separator in the text *)
+Lemma strip_us_nodigit : forall s s', strip_us false s = Some s' ->
+  forallb (fun b => negb (is_digit b)) s' = true -> s = s'.
+Proof.
+  induction s as [|b r IH]; intros s'; rewrite strip_us_alt.
+  - intros H _. inversion H. reflexivity.
+  - destruct (b =? 95); [discriminate|].
+    destruct (strip_us (is_digit b) r) as [r'|] eqn:E; [|discriminate].
+    intros H F. inversion H; subst s'. cbn [forallb] in F. apply andb_true_iff in F as [Fb Fr].
+    destruct (is_digit b); [discriminate Fb|]. f_equal. apply IH; assumption.
+Qed.
+
+Lemma take_digits_no_us : forall s a n x m r, take_digits s a n = (x, m, r) ->
+  forallb not_us r = true -> forallb not_us s = true.
+Proof.
+  induction s as [|b s IH]; intros a n x m r; simpl take_digits.
+  - intros H; inversion H; auto.
+  - destruct (is_digit b) eqn:D.
+    + intros H F. cbn [forallb]. rewrite (IH _ _ _ _ _ H F), andb_true_r.
+      unfold is_digit in D. apply andb_true_iff in D as [_ D]. apply Z.leb_le in D.
+      unfold not_us. destruct (Z.eqb_spec b 95); [lia | reflexivity].
+    + intros H; inversion H; auto.
+Qed.
+
+Lemma jn_exp_alt : forall r2, jn_exp r2 =
+  match r2 with
+  | [] => true
+  | b :: r =>
+    if (b =? 101) || (b =? 69) then
+      let r' := match r with [] => [] | c :: t => if (c =? 45) || (c =? 43) then t else r end in
+      let '(_, n, r'') := take_digits r' 0 0 in
+      negb (n =? 0) && match r'' with [] => true | _ => false end
+    else false
+  end.
+Proof.
+  intros r2. destruct r2 as [|b r]; [reflexivity|]. unfold jn_exp.
+  destruct ((b =? 101) || (b =? 69)); [|reflexivity].
+  destruct r as [|[|p|p] t]; try reflexivity.
+  do 6 (destruct p as [p|p|]; try reflexivity).
+Qed.
+
+Lemma not_us_of_eq : forall b c, (b =? c) = true -> c <> 95 -> not_us b = true.
+Proof.
+  intros b c E N. apply Z.eqb_eq in E. subst c. unfold not_us.
+  destruct (Z.eqb_spec b 95); [contradiction | reflexivity].
+Qed.
+
+(* RFC 8259 number text has no '_' *)
+Lemma json_number_no_us : forall s, json_number_ok s = true ->
+  forallb (fun b => negb (b =? 95)) s = true.
+Proof.
+  intros s J. change (forallb not_us s = true). rewrite json_number_ok_stages in J.
+  destruct (jn_int (strip_minus s)) as [r1|] eqn:JI; [|discriminate].
+  destruct (jn_frac r1) as [r2|] eqn:JF; [|discriminate].
+  assert (F2 : forallb not_us r2 = true).
+  { rewrite jn_exp_alt in J. destruct r2 as [|b r]; [reflexivity|].
+    destruct ((b =? 101) || (b =? 69)) eqn:E; [|discriminate]. cbv zeta in J.
+    assert (Hb : not_us b = true).
+    { apply orb_true_iff in E as [E|E]; eapply not_us_of_eq; eauto; lia. }
+    cbn [forallb]. rewrite Hb. cbn [andb].
+    match type of J with context [take_digits ?R 0 0] =>
+      destruct (take_digits R 0 0) as [[x n] r''] eqn:T end.
+    apply andb_true_iff in J as [_ J]. destruct r'' as [|? ?]; [|discriminate].
+    apply take_digits_no_us in T; [|reflexivity].
+    destruct r as [|c t]; [reflexivity|].
+    destruct ((c =? 45) || (c =? 43)) eqn:Ec; [|exact T].
+    cbn [forallb]. rewrite T, andb_true_r.
+    apply orb_true_iff in Ec as [Ec|Ec]; eapply not_us_of_eq; eauto; lia. }
+  assert (F1 : forallb not_us r1 = true).
+  { rewrite jn_frac_alt in JF. destruct r1 as [|b r]; [reflexivity|].
+    destruct (b =? 46) eqn:E; [|inversion JF; subst r2; exact F2].
+    destruct (take_digits r 0 0) as [[x n] r'] eqn:T. destruct (n =? 0); [discriminate|].
+    inversion JF; subst r'. cbn [forallb]. rewrite (take_digits_no_us _ _ _ _ _ _ T F2), andb_true_r.
+    eapply not_us_of_eq; eauto; lia. }
+  assert (F0 : forallb not_us (strip_minus s) = true).
+  { rewrite jn_int_alt in JI. destruct (strip_minus s) as [|b r]; [discriminate|].
+    destruct (b =? 48) eqn:E.
+    { inversion JI; subst r1. cbn [forallb]. rewrite F1, andb_true_r. eapply not_us_of_eq; eauto; lia. }
+    destruct ((49 <=? b) && (b <=? 57)) eqn:D; [|discriminate].
+    destruct (take_digits r 0 0) as [[x n] r'] eqn:T. inversion JI; subst r'.
+    cbn [forallb]. rewrite (take_digits_no_us _ _ _ _ _ _ T F1), andb_true_r.
+    apply andb_true_iff in D as [_ D]. apply Z.leb_le in D.
+    unfold not_us. destruct (Z.eqb_spec b 95); [lia | reflexivity]. }
+  rewrite strip_minus_alt in F0. destruct s as [|b r]; [reflexivity|].
+  destruct (b =? 45) eqn:E; [|exact F0].
+  cbn [forallb]. rewrite F0, andb_true_r. eapply not_us_of_eq; eauto; lia.
+Qed.
+
+(* ... so on RFC 8259 text the separator pass is the identity *)
+Lemma parse_dec_json : forall s, json_number_ok s = true -> parse_dec s = parse_dec_plain s.
+Proof.
+  intros s J. unfold parse_dec. rewrite (strip_us_id s false (json_number_no_us s J)). reflexivity.
+Qed.
+
+Lemma parse_dec_plain_of : forall s d, parse_dec s = Some d -> exists s', parse_dec_plain s' = Some d.
+Proof.
+  intros s d. unfold parse_dec. destruct (strip_us false s) as [s'|]; [|discriminate].
+  intros H. exists s'. exact H.
+Qed.
+
+Lemma parse_dec_alt : forall s, parse_dec_plain s =
   match s with
   | [] => None
   | b :: r =>
@@ -344,7 +581,7 @@ Qed.
 Lemma json_number_dec_ok : forall t d,
   json_number_ok t = true -> parse_dec t = Some d -> dec_ok d.
 Proof.
-  intros t d J. rewrite parse_dec_alt. destruct t as [|b r]; [discriminate|].
+  intros t d J. rewrite (parse_dec_json t J), parse_dec_alt. destruct t as [|b r]; [discriminate|].
   destruct (b =? 43) eqn:E43.
   { apply Z.eqb_eq in E43; subst b.
     assert (F : json_number_ok (43 :: r) = false) by reflexivity. congruence. }
@@ -657,17 +894,36 @@ Qed.
 Lemma parse_dec_ok_or_nan : forall s d, parse_dec s = Some d ->
   dec_ok d \/ (d = DNaN /\ json_text_ok s = false).
 Proof.
-  intros s d. rewrite parse_dec_alt. destruct s as [|b r]; [discriminate|].
+  intros s0 d. unfold parse_dec. destruct (strip_us false s0) as [s|] eqn:US; [|discriminate].
+  (* the text "nan" has no digit, hence no separator was removed: s0 = s *)
+  assert (ND : forall x, map lower_byte x = [110; 97; 110] ->
+                         forallb (fun b => negb (is_digit b)) x = true).
+  { intros x H. destruct x as [|a [|b [|c [|? ?]]]]; try discriminate H.
+    inversion H as [[Ha Hb Hc]].
+    assert (L : forall u v, lower_byte u = v -> 57 < v -> negb (is_digit u) = true).
+    { intros u v E Hv. unfold lower_byte in E. unfold is_digit.
+      destruct ((65 <=? u) && (u <=? 90)) eqn:C.
+      - apply andb_true_iff in C as [C _]. apply Z.leb_le in C.
+        destruct (Z.leb_spec u 57); [lia|]. rewrite andb_false_r. reflexivity.
+      - destruct (Z.leb_spec u 57); [lia|]. rewrite andb_false_r. reflexivity. }
+    cbn [forallb]. rewrite (L _ _ Ha), (L _ _ Hb), (L _ _ Hc) by lia. reflexivity. }
+  rewrite parse_dec_alt. destruct s as [|b r]; [discriminate|].
   destruct (b =? 43) eqn:E43.
   { apply Z.eqb_eq in E43; subst b. destruct r as [|b' r']; [discriminate|].
     intros H. apply parse_dec_body_ok in H as [H|[-> H]]; [left; exact H|].
-    right. split; [reflexivity|]. apply nan_text_not_json_text in H. tauto. }
+    right. split; [reflexivity|].
+    rewrite (strip_us_nodigit _ _ US) by (apply (andb_true_intro (conj eq_refl (ND _ H)))).
+    apply nan_text_not_json_text in H. tauto. }
   destruct (b =? 45) eqn:E45.
   { apply Z.eqb_eq in E45; subst b. destruct r as [|b' r']; [discriminate|].
     intros H. apply parse_dec_body_ok in H as [H|[-> H]]; [left; exact H|].
-    right. split; [reflexivity|]. apply nan_text_not_json_text in H. tauto. }
+    right. split; [reflexivity|].
+    rewrite (strip_us_nodigit _ _ US) by (apply (andb_true_intro (conj eq_refl (ND _ H)))).
+    apply nan_text_not_json_text in H. tauto. }
   intros H. apply parse_dec_body_ok in H as [H|[-> H]]; [left; exact H|].
-  right. split; [reflexivity|]. apply nan_text_not_json_text in H. tauto.
+  right. split; [reflexivity|].
+  rewrite (strip_us_nodigit _ _ US) by (exact (ND _ H)).
+  apply nan_text_not_json_text in H. tauto.
 Qed.
 
 (* Numbers that decode compare by decimal value.  The textual shortcut never
@@ -721,121 +977,6 @@ Proof. repeat split; vm_compute; reflexivity. Qed.
 (* ------------------------------------------------------------------ *)
 (* 0'. a sufficient condition for decoding: no exponent part            *)
 (* ------------------------------------------------------------------ *)
-(* json_number_ok and parse_dec_body, cut into stages (same source text as
-   Num/Dec.v, so the stage equations hold by conversion) *)
-Definition strip_minus (s : bytes) : bytes := match s with 45 :: r => r | _ => s end.
-Definition jn_int (s1 : bytes) : option bytes :=
-  match s1 with
-  | 48 :: r => Some r
-  | b :: r => if (49 <=? b) && (b <=? 57) then let '(_, _, r') := take_digits r 0 0 in Some r' else None
-  | [] => None
-  end.
-Definition jn_frac (r1 : bytes) : option bytes :=
-  match r1 with
-  | 46 :: r => let '(_, n, r') := take_digits r 0 0 in if n =? 0 then None else Some r'
-  | _ => Some r1
-  end.
-Definition jn_exp (r2 : bytes) : bool :=
-  match r2 with
-  | [] => true
-  | b :: r =>
-    if (b =? 101) || (b =? 69) then
-      let r' := match r with 45 :: t => t | 43 :: t => t | _ => r end in
-      let '(_, n, r'') := take_digits r' 0 0 in
-      negb (n =? 0) && match r'' with [] => true | _ => false end
-    else false
-  end.
-Definition pd_frac (ip ni : Z) (r1 : bytes) : Z * Z * Z * bytes :=
-  match r1 with
-  | 46 :: r => let '(fp, nfr, r') := take_digits r ip 0 in (fp, nfr, ni + nfr, r')
-  | _ => (ip, 0, ni, r1)
-  end.
-
-Lemma json_number_ok_stages : forall s, json_number_ok s =
-  match jn_int (strip_minus s) with
-  | None => false
-  | Some r1 => match jn_frac r1 with None => false | Some r2 => jn_exp r2 end
-  end.
-Proof. reflexivity. Qed.
-
-Lemma strip_minus_alt : forall s, strip_minus s =
-  match s with [] => [] | b :: r => if b =? 45 then r else s end.
-Proof.
-  intros s. destruct s as [|[|p|p] r]; try reflexivity.
-  do 6 (destruct p as [p|p|]; try reflexivity).
-Qed.
-
-Lemma jn_int_alt : forall s1, jn_int s1 =
-  match s1 with
-  | [] => None
-  | b :: r =>
-    if b =? 48 then Some r
-    else if (49 <=? b) && (b <=? 57) then let '(_, _, r') := take_digits r 0 0 in Some r' else None
-  end.
-Proof.
-  intros s. destruct s as [|[|p|p] r]; try reflexivity.
-  do 6 (destruct p as [p|p|]; try reflexivity).
-Qed.
-
-Lemma jn_frac_alt : forall r1, jn_frac r1 =
-  match r1 with
-  | [] => Some r1
-  | b :: r =>
-    if b =? 46 then let '(_, n, r') := take_digits r 0 0 in if n =? 0 then None else Some r'
-    else Some r1
-  end.
-Proof.
-  intros s. destruct s as [|[|p|p] r]; try reflexivity.
-  do 6 (destruct p as [p|p|]; try reflexivity).
-Qed.
-
-Lemma pd_frac_alt : forall ip ni r1, pd_frac ip ni r1 =
-  match r1 with
-  | [] => (ip, 0, ni, r1)
-  | b :: r =>
-    if b =? 46 then let '(fp, nfr, r') := take_digits r ip 0 in (fp, nfr, ni + nfr, r')
-    else (ip, 0, ni, r1)
-  end.
-Proof.
-  intros ip ni s. destruct s as [|[|p|p] r]; try reflexivity.
-  do 6 (destruct p as [p|p|]; try reflexivity).
-Qed.
-
-(* what take_digits leaves behind *)
-Fixpoint drest (s : bytes) : bytes :=
-  match s with
-  | b :: r => if is_digit b then drest r else s
-  | [] => []
-  end.
-
-Lemma forallb_drest : forall (P : Z -> bool) s, forallb P s = true -> forallb P (drest s) = true.
-Proof.
-  intros P s. induction s as [|b r IH]; [auto|]. intros H. cbn [drest].
-  destruct (is_digit b); [|exact H]. apply IH. simpl in H. apply andb_true_iff in H as [_ H]. exact H.
-Qed.
-
-Lemma take_digits_bound : forall s acc n k a m r,
-  0 <= k -> 0 <= acc < 10 ^ k -> take_digits s acc n = (a, m, r) ->
-  0 <= a < 10 ^ (k + (m - n)) /\ n <= m /\
-  (m - n) + Z.of_nat (length r) = Z.of_nat (length s) /\ r = drest s.
-Proof.
-  induction s as [|b s IH]; intros acc n k a m r Hk Hacc; simpl take_digits.
-  - intros H; inversion H; subst. replace (k + (m - m)) with k by lia.
-    repeat split; try lia; reflexivity.
-  - cbn [drest]. destruct (is_digit b) eqn:D.
-    + intros H.
-      assert (Hacc' : 0 <= acc * 10 + (b - 48) < 10 ^ (k + 1)).
-      { unfold is_digit in D. apply andb_true_iff in D as [D1 D2].
-        apply Z.leb_le in D1. apply Z.leb_le in D2.
-        rewrite Z.pow_add_r by lia. change (10 ^ 1) with 10. lia. }
-      destruct (IH _ _ (k + 1) _ _ _ ltac:(lia) Hacc' H) as (B & C & L & R).
-      replace (k + 1 + (m - (n + 1))) with (k + (m - n)) in B by lia.
-      repeat split; try lia; try exact R.
-      change (length (b :: s)) with (S (length s)). rewrite Nat2Z.inj_succ. lia.
-    + intros H; inversion H; subst. replace (k + (m - m)) with k by lia.
-      repeat split; try lia; reflexivity.
-Qed.
-
 Lemma beqb_digit_head : forall b r x l, is_digit b = true -> 57 < x ->
   beqb (map lower_byte (b :: r)) (x :: l) = false.
 Proof.
@@ -920,7 +1061,7 @@ Proof.
 Qed.
 
 Lemma parse_dec_strip : forall t b s', strip_minus t = b :: s' -> is_digit b = true ->
-  exists neg, parse_dec t = parse_dec_body neg (strip_minus t).
+  exists neg, parse_dec_plain t = parse_dec_body neg (strip_minus t).
 Proof.
   intros t b s' H D. rewrite parse_dec_alt. rewrite strip_minus_alt in *.
   destruct t as [|z r]; [discriminate|]. destruct (Z.eqb_spec z 45) as [->|N45].
@@ -951,13 +1092,13 @@ Lemma plain_core : forall t, json_number_ok t = true -> no_exp t = true ->
   exists neg c nf, parse_dec t = no_inf (fit neg c (- nf)) /\ 0 <= nf /\
                    0 <= c < 10 ^ Z.of_nat (length t).
 Proof.
-  intros t J NE. rewrite json_number_ok_stages in J.
+  intros t J NE. pose proof J as J0. rewrite json_number_ok_stages in J.
   destruct (jn_int (strip_minus t)) as [r1|] eqn:JI; [|discriminate].
   destruct (jn_frac r1) as [r2|] eqn:JF; [|discriminate].
   destruct (jn_int_shape _ _ _ JI JF J) as (b & s' & Es1 & Db & Er1).
   destruct (parse_dec_strip t b s' Es1 Db) as [neg Hp].
   destruct (strip_minus_props t) as [Ls Ps]. unfold no_exp in NE. apply Ps in NE.
-  rewrite Hp. rewrite Es1 in *.
+  rewrite (parse_dec_json t J0), Hp. rewrite Es1 in *.
   destruct (take_digits (b :: s') 0 0) as [[ip ni] r1'] eqn:T1.
   destruct (take_digits_bound _ 0 0 0 _ _ _ ltac:(lia) ltac:(change (10 ^ 0) with 1; lia) T1)
     as (B & C & L & R).
@@ -1072,13 +1213,13 @@ Qed.
 Theorem json_number_dec_finite : forall t d,
   json_number_ok t = true -> parse_dec t = Some d -> exists n c e, d = DFin n c e /\ 0 <= c.
 Proof.
-  intros t d J H. pose proof (json_number_dec_ok t d J H) as O.
+  intros t d J H. pose proof (json_number_dec_ok t d J H) as O. pose proof J as J0.
   rewrite json_number_ok_stages in J.
   destruct (jn_int (strip_minus t)) as [r1|] eqn:JI; [|discriminate].
   destruct (jn_frac r1) as [r2|] eqn:JF; [|discriminate].
   destruct (jn_int_shape _ _ _ JI JF J) as (b & s' & Es1 & Db & _).
   destruct (parse_dec_strip t b s' Es1 Db) as [neg Hp].
-  rewrite Hp, Es1 in H. apply parse_dec_body_digit_fin in H as (n & c & e & ->); [|exact Db].
+  rewrite (parse_dec_json t J0), Hp, Es1 in H. apply parse_dec_body_digit_fin in H as (n & c & e & ->); [|exact Db].
   exists n, c, e. split; [reflexivity | exact O].
 Qed.
 
@@ -1133,7 +1274,8 @@ Theorem json_number_plain_overflow : forall n, 6145 <= Z.of_nat n ->
   let t := 49 :: repeat 48 n in
   json_number_ok t = true /\ no_exp t = true /\ parse_dec t = None.
 Proof.
-  intros n Hn t. subst t. split; [|split].
+  intros n Hn t. subst t.
+  assert (J : json_number_ok (49 :: repeat 48 n) = true); [|split; [exact J|split]].
   - rewrite json_number_ok_stages.
     change (strip_minus (49 :: repeat 48 n)) with (49 :: repeat 48 n).
     change (jn_int (49 :: repeat 48 n))
@@ -1141,7 +1283,7 @@ Proof.
     rewrite take_digits_zeros. reflexivity.
   - unfold no_exp. apply forallb_forall. intros b [<-|Hb]; [reflexivity|].
     apply repeat_spec in Hb. subst b. reflexivity.
-  - rewrite parse_dec_alt. change (49 =? 43) with false. change (49 =? 45) with false. cbv iota.
+  - rewrite (parse_dec_json _ J), parse_dec_alt. change (49 =? 43) with false. change (49 =? 45) with false. cbv iota.
     rewrite (parse_dec_body_plain false 49 (repeat 48 n) (10 ^ Z.of_nat n) (1 + Z.of_nat n) []
                (10 ^ Z.of_nat n) 0 (1 + Z.of_nat n)).
     + change (- 0) with 0. rewrite fit_pow10_overflow by lia. reflexivity.
